@@ -12,8 +12,10 @@ import (
 	"encoding/json"
 	"fmt"
 	"io"
+	"os"
 	"runtime"
 	"sync"
+	"time"
 
 	"github.com/quay/zlog"
 	"github.com/rs/zerolog"
@@ -133,6 +135,13 @@ func Run(cfg hx.Config) error {
 		}
 		return
 	}()
+	t0 := time.Now()
+	lap := func(what string) {
+		if os.Getenv("C15_TIMING") != "" {
+			fmt.Fprintf(os.Stderr, "c15 timing: %-12s %6.1fs\n", what, time.Since(t0).Seconds())
+		}
+	}
+	defer lap("manager")
 	replayKnown(r, ts)
 	replayRegressions(r, ts)
 	nfeeds := cfg.N(2, 10)
@@ -159,9 +168,15 @@ func Run(cfg hx.Config) error {
 			sweepFeed(r, f, rnd.Fork(), cfg)
 		}
 	}
+	lap("targets")
 	if !r.Stop() {
 		runPipelines(r, rnd, cfg)
 	}
+	lap("pipelines")
+	if !r.Stop() {
+		runTransfers(r, rnd.Fork(), cfg)
+	}
+	lap("transfers")
 	if !r.Stop() {
 		r.Op("reset", "ok", false)
 		runManager(r, rnd, cfg)
